@@ -1037,26 +1037,29 @@ def Engine.processAckTimeouts : Nat → Engine → Engine × Res
         (e3, r.fold r3)
       else (e, .ok)
 
-/-- `service` -/
+/-- `service`, the work by state -/
+def Engine.serviceCore (e : Engine) (cap prefill : Nat) : Engine × Res :=
+  match e.state with
+  | .disconnected => (e, .ok)
+  | .pendingConnack =>
+    (match e.connackDeadline with
+     | none => (e, .panic "unwrap_connack_timeout@service_pending_connack")
+     | some d =>
+       if e.now ≥ d then (e, .err "ConnectionEstablishmentFailure")
+       else e.serviceQueue false cap prefill)
+  | .connected =>
+    let (ea, ra) := e.serviceKeepAlive
+    if !ra.isOk then (ea, ra)
+    else
+      let (eb, rb) := ea.serviceQueue true cap prefill
+      if !rb.isOk then (eb, rb)
+      else Engine.processAckTimeouts (eb.timeouts.length + 1) eb
+  | .pendingDisconnect => Engine.processAckTimeouts (e.timeouts.length + 1) e
+  | .halted => (e, .err "InternalStateError")
+
+/-- `service`: any error halts the engine -/
 def Engine.service (e : Engine) (cap prefill : Nat) : Engine × Res :=
-  let (e1, r) : Engine × Res :=
-    match e.state with
-    | .disconnected => (e, .ok)
-    | .pendingConnack =>
-      (match e.connackDeadline with
-       | none => (e, .panic "unwrap_connack_timeout@service_pending_connack")
-       | some d =>
-         if e.now ≥ d then (e, .err "ConnectionEstablishmentFailure")
-         else e.serviceQueue false cap prefill)
-    | .connected =>
-      let (ea, ra) := e.serviceKeepAlive
-      if !ra.isOk then (ea, ra)
-      else
-        let (eb, rb) := ea.serviceQueue true cap prefill
-        if !rb.isOk then (eb, rb)
-        else Engine.processAckTimeouts (eb.timeouts.length + 1) eb
-    | .pendingDisconnect => Engine.processAckTimeouts (e.timeouts.length + 1) e
-    | .halted => (e, .err "InternalStateError")
+  let (e1, r) := e.serviceCore cap prefill
   match r with
   | .ok => (e1, r)
   | .panic _ => (e1, r)
